@@ -334,6 +334,11 @@ func (h *RetryHandler) markEndpointUnhealthy(ctx context.Context, endpoint *doma
 	// in the meantime have advanced the failure count and back-off. Continue from what the
 	// repository holds now, or the write below would rewind the back-off schedule.
 	stored := h.storedEndpoint(ctx, endpoint)
+	if stored != endpoint && !stored.Status.IsRoutable() {
+		// Already out of rotation: a health check or another request got there first. One outage
+		// seen by many in-flight requests is one step of the back-off, not one per request.
+		return
+	}
 	endpointCopy := *stored
 	endpointCopy.Status = domain.StatusOffline
 	endpointCopy.ConsecutiveFailures++
